@@ -603,6 +603,10 @@ static void m_apply(int op) {
                 expect_int_fail(rc, 0, nm);
                 break;
             }
+            if (g_cfg.rmode == 1 && X.buffer && X.buffer == snapX.buffer && X.capacity > cap0 && X.capacity <= MAXCAP + 2)
+                /* galloc's in-place realloc exposes stale arena bytes in the new tail: the harness (as the allocator's owner)
+                 * gives them the allocator's deterministic junk so that replays are bit-for-bit identical */
+                for (size_t i = cap0; i < X.capacity; ++i) X.buffer[i] = (uint8_t)(0xA5 ^ (i * 7));
             size_t req = rel ? R.len + arg : arg;
             size_t newcap = smart ? smart_newcap(req) : (req > R.cap ? req : R.cap);
             ESX_CHECK(rc == AWS_OP_SUCCESS, "must-succeed", "%s failed (error %s)", nm, aws_error_name(aws_last_error()));
@@ -935,7 +939,7 @@ int main(int argc, char **argv) {
         set_cfg(cfgs[i][0], cfgs[i][1], mc);
         if (v_replay_token) continue;
         if (cfgs[i][4] && !v_thorough()) continue;
-        model.max_depth = cfgs[i][3] == 0 ? ESX_MAX_DEPTH : (depth ? depth : (v_thorough() ? 6 : 4));
+        model.max_depth = cfgs[i][3] == 0 ? ESX_MAX_DEPTH : (depth ? depth : (v_thorough() ? 6 : 5));
         esx_run(&model);
     }
     v_finish();
